@@ -76,9 +76,18 @@ def _run_tu(args):
         C = Collector(tu['name'])
         for rn in rule_names:
             RULES[rn](F, C)
+        # does this TU instantiate code inside a compiler-conditional region (see corpus.gcc_overlay)?
+        cond = False
+        regs = tu.get('cond_regions') or {}
+        if regs and tu.get('corpus') != 'G':
+            for f in F.funcs:
+                if not f.blocks: continue
+                for (a, b, _c) in regs.get(f.file, ()):
+                    l0 = int(f.loc.rsplit(':', 1)[1]); l1 = f.d.get('end') or l0
+                    if l0 <= b and l1 >= a: cond = True
         return {'tu': tu['name'], 'findings': C.findings, 'obl': C.obl, 'anchors': C.anchors, 'samples': C.samples,
                 'exports': C.exports, 'ninst': C.ninst, 'patterns': sorted(C.patterns), 'notes': C.notes,
-                'extract_s': secs, 'cached': cached, 'nfuncs': len(F.funcs), 'err': None}
+                'extract_s': secs, 'cached': cached, 'nfuncs': len(F.funcs), 'err': None, 'cond': cond}
     except AnalysisBroken as e:
         return {'tu': tu['name'], 'err': 'broken: ' + str(e)}
     except Exception:
@@ -107,9 +116,16 @@ def run_property(prop, spec, tier, seed=0, tus=None, quiet=False):
     per_tu_rules = [r for r in rule_names if r in RULES]
     jobs = min(16, os.cpu_count() or 4)
     results = []
+    overlay, cond_regions = corpus_mod.gcc_overlay()
     if per_tu_rules and tus:
+        tus = [dict(t, cond_regions=cond_regions) for t in tus]
         with ProcessPoolExecutor(max_workers=jobs) as ex:
             for r in ex.map(_run_tu, [(tu, per_tu_rules) for tu in tus]):
+                results.append(r)
+            # second parse, with the compiler-conditional regions as g++ sees them, of the TUs that instantiate code in such a region
+            byname = {t['name']: t for t in tus}
+            variants = [corpus_mod.gcc_variant(byname[r['tu']], overlay) for r in results if r.get('cond') and overlay]
+            for r in ex.map(_run_tu, [(tu, per_tu_rules) for tu in variants]):
                 results.append(r)
     broken = [r for r in results if r.get('err')]
     if broken:
@@ -143,7 +159,9 @@ def run_property(prop, spec, tier, seed=0, tus=None, quiet=False):
             if '/front/euml/' in p: continue
             for ln, line in enumerate(open(p, errors='replace'), 1):
                 if re.match(r'\s*#\s*if.*__clang__', line): blind.append('%s:%d' % (p.split('/include/')[1], ln))
-        if blind: M.note('compiler-conditional regions whose non-clang branch is not analysed: ' + ', '.join(sorted(blind)))
+        nG = sum(1 for r in results if r['tu'].startswith('G/'))
+        if blind and nG: M.note('compiler-conditional regions (%s): analysed in both forms - as clang selects them and, for the %d TUs that instantiate code inside one, re-parsed with the conditions evaluated as g++ does (corpus G)' % (', '.join(sorted(blind)), nG))
+        elif blind: M.note('compiler-conditional regions whose non-clang branch is not analysed (no TU of this run instantiates code inside one): ' + ', '.join(sorted(blind)))
     except Exception:
         pass
     take = spec.get('take')
